@@ -161,6 +161,13 @@ func scenarios(th bool) []scenario {
 			out = append(out, scenario{Class: "mixed-fault", PreHash: idx(m.hash), PreDirect: idx(m.direct), HashFirst: true, Clients: [][]op{h}, Cache: "advH", Faults: "basic", MaxFaults: 1, Bound: 1})
 		}
 	}
+	// chains through a CA and through its re-issued twin (same name, key and key identifier), one after the other
+	for _, h := range [][]op{{sub("L1"), sub("L1ri"), seq, read}, {sub("L1ri"), sub("L1"), sub("P1ri"), seq, rd, read}, {sub("P1"), seq, sub("P1ri"), sub("L1"), seq, read}} {
+		for _, c := range []string{"noop", "lru1", "lruN", "advM"} {
+			out = append(out, scenario{Class: "reissued", Clients: [][]op{h}, Cache: c, Bound: 0})
+		}
+		out = append(out, scenario{Class: "reissued-fault", Clients: [][]op{h}, Cache: "advH", Faults: "basic", MaxFaults: 1, Bound: 1})
+	}
 	// entries longer than 64 KiB, both entry types, alone and next to ordinary ones
 	for _, h := range [][]op{{sub("PBig"), seq, read}, {sub("LBig"), sub("PBig"), sub("L1"), seq, rd, read}, {sub("P1"), sub("PBig"), seq, read}} {
 		for _, c := range []string{"noop", "lruN", "advM"} {
